@@ -44,6 +44,7 @@ def parseSeq : Nat → List String → Option (Prog × List String)
               if head == "p1" then some (.lp 1 body k, rest2)
               else if head == "p2" then some (.lp 2 body k, rest2)
               else if head == "p3" then some (.lp 3 body k, rest2)
+              else if head == "p4" then some (.lp 4 body k, rest2)
               else if l == "a" then some (.asn1 (tagOf t) body k, rest2)
               else if l == "oa" then some (.optAsn1 (tagOf t) body k, rest2)
               else none
